@@ -457,6 +457,9 @@ class Sandboxes:
         'norootrel': ('', '/static', 'rel-noroot', '', ''),
         'script': ('/app', '/static', 'abs', 'index.html', ''),
         'dblslash': ('', '/static', 'dblslash', 'index.html', ''),
+        # tools.staticfile serving <root>/f.txt below /sf (oracle only: no staticdir, nothing to compare)
+        'file': ('', '/sf', 'abs', '', ''),
+        'file-rel': ('', '/sf', 'rel+root', '', r'\.txt$'),
     }
 
     def static_app(self, rn, variant):
@@ -480,13 +483,20 @@ class Sandboxes:
 
         class Root:
             pass
-        sconf = {'tools.staticdir.on': True, 'tools.staticdir.dir': d}
-        if root:
-            sconf['tools.staticdir.root'] = root
-        if index:
-            sconf['tools.staticdir.index'] = index
-        if match:
-            sconf['tools.staticdir.match'] = match
+        if variant.startswith('file'):
+            sconf = {'tools.staticfile.on': True, 'tools.staticfile.filename': d + '/f.txt'}
+            if root:
+                sconf['tools.staticfile.root'] = root
+            if match:
+                sconf['tools.staticfile.match'] = match
+        else:
+            sconf = {'tools.staticdir.on': True, 'tools.staticdir.dir': d}
+            if root:
+                sconf['tools.staticdir.root'] = root
+            if index:
+                sconf['tools.staticdir.index'] = index
+            if match:
+                sconf['tools.staticdir.match'] = match
         conf = {'/': {'hooks.before_handler.c11': cherrypy._cprequest.Hook(hook, priority=0)}}
         conf.setdefault(section, {}).update(sconf)
         app = cherrypy.Application(Root(), script, conf)
